@@ -1257,6 +1257,10 @@ impl ConfigState {
             "the built frontend must carry its bucket's cluster_id"
         );
         tcp_frontends.push(tcp_frontend);
+        // keep the bucket sorted, like the backends: the order in which the
+        // frontends were added (e.g. the HashSet order of `diff`) must not make
+        // two equal configurations compare different
+        tcp_frontends.sort();
         debug_assert_eq!(
             tcp_frontends.len(),
             before + 1,
@@ -1322,6 +1326,7 @@ impl ConfigState {
         }
 
         udp_frontends.push(udp_frontend);
+        udp_frontends.sort();
         Ok(())
     }
 
